@@ -111,6 +111,12 @@ End Newton.
 Section NewtonCheck.
 Context {R W B : Type} (o : sr_ops R) (sub maxr : R -> R -> R).
 Context (of_wire : W -> R) (within notbelow : R -> B -> bool).
+(** [isfin]: the carrier's finite values.  C02 is stated for grammars whose sum-product is finite; a
+    nonterminal whose exact lower bound (Kleene iterate / exact solution of a linearly recursive
+    component) already has an infinite cell is outside that guard (verdict 31, discarded and counted):
+    the float solvers return huge finite values there when 1 - a is not float-exact (that class is
+    C09's known finding about divergent systems, not a C02 violation). *)
+Context (isfin : R -> bool).
 
 (** k Newton passes / k Kleene steps on one component; [all] holds the values of all labels
     computed so far (terminal weights and earlier nonterminals) *)
@@ -145,7 +151,7 @@ Definition cells_all (p : R -> B -> bool) (tb : table (R:=R)) (obs : list B) : b
     passes change nothing: C02_newton_fixed).
     verdicts: 0 ok; 1 an observed value lies below the kmax-th Kleene iterate (violates the
     sandwich); 2 ill-formed grammar; 3 scc out of fuel; 4 missing entry; 10 an observed value
-    differs from the model's Newton iterate *)
+    differs from the model's Newton iterate; 31 the exact value is infinite (outside the guard) *)
 Definition newton_check (x : grammar_w * list (nat * list W) * nat * list (nat * list B)) : nat :=
   let '(gw, ws, kmax, obs) := x in
   let G := grammar_of_w gw in
@@ -158,6 +164,7 @@ Definition newton_check (x : grammar_w * list (nat * list W) * nat * list (nat *
     worst (map (fun X =>
                   match obs_get obs X, tmt_get model X, tmt_get lo X with
                   | Some ob, Some mt, Some lt =>
+                    if negb (forallb (fun c => isfin (snd c)) lt) then 31 else
                     if negb (cells_all notbelow lt ob) then 1
                     else if negb (cells_all within mt ob) then 10 else 0
                   | None, _, _ => 4
@@ -173,14 +180,16 @@ Definition real_notbelow (x : ereal) (b : Q * option Q) : bool :=
   | Some h => match x with Fin a => Qle_bool (this (qv a)) h | PInf => false end
   end.
 Definition emax2 (x y : ereal) : ereal := if eleb x y then y else x.
-Definition newton_check_real := newton_check ereal_ops esub emax2 ereal_of real_within real_notbelow.
+Definition newton_check_real := newton_check ereal_ops esub emax2 ereal_of real_within real_notbelow
+               (fun x => match x with Fin _ => true | PInf => false end).
 
 Definition bsub2 (x y : bool) : bool := x && negb y.
 Definition newton_check_bool :=
-  newton_check bool_ops bsub2 orb (fun b : bool => b) Bool.eqb (fun (lo ob : bool) => implb lo ob).
+  newton_check bool_ops bsub2 orb (fun b : bool => b) Bool.eqb (fun (lo ob : bool) => implb lo ob) (fun _ => true).
 
 (** Viterbi: [sub] returns its first argument, maximum = the semiring's addition *)
 Definition newton_check_trop :=
   newton_check trop_ops (fun x _ => x) tmax trop_of
                (fun x (b : (nat * Q) * (nat * Q)) => trop_within x (fst b) (snd b))
-               (fun x (b : (nat * Q) * (nat * Q)) => tleb x (trop_of (snd b))).
+               (fun x (b : (nat * Q) * (nat * Q)) => tleb x (trop_of (snd b)))
+               (fun x => match x with TPInf => false | _ => true end).
